@@ -37,6 +37,17 @@ CLAIMED = {
               "is one piece per argument in order, streamed into a stream with default formatting state."),
         note=TRUST + " std::sregex_iterator over the literal \\{\\} is assumed to enumerate the left-to-right non-overlapping occurrences of {} (literal checked on every run); only Char = char is bound.",
         ref="5 (C08)", technique="CBMC function contracts (DFCC): piece-log postconditions, loop invariant, index recursion for parameter packs"),
+    "C18": dict(
+        text=("Modular proof over one arbitrary state: optional's copy constructor, value constructors, the three assignment operators (copy "
+              "assignment also under the aliasing precondition other == this), operator bool and operator* are extracted and verified against "
+              "ownership contracts (owns zero or one heap object shared with nobody; copies are fresh objects with equal value; assigning an empty "
+              "optional empties the target; the replaced value is released exactly once, counted by a ghost; reading an empty one raises). "
+              "quaint_ptr: make_quaint creates an object of type T with a deleter that destroys as T (the lambda is extracted), reset / move "
+              "assignment (defaulted: synthesised; user-defined: extracted) / move construction destroy each object that loses its owner exactly "
+              "once with its own type and leave moved-from / reset pointers empty. A history lemma gives the induction step for every sequence "
+              "of reset / move / relocation operations over a pool of owners."),
+        note=TRUST + " std::unique_ptr and std::function semantics are stub bodies (assumptions); std::vector relocation is assumed to be move-construct + destroy.",
+        ref="5 (C18)", technique="CBMC function contracts (DFCC) with ghost ownership counters, aliasing variants and a history lemma"),
     "C07": dict(
         text=("Same functions as C06, abstract-view postconditions: appends add at the end, erase removes one element and shifts the tail, "
               "positional emplace inserts before pos, copy yields equal elements on independent storage, move/assignment transfer the whole "
